@@ -46,6 +46,7 @@ func propC09(w *World, r *Report) {
 		}
 		return stage(c) && isPtrTo(c.Signature.Recv().Type(), d.T)
 	})
+	paths = framesNonNil(paths)
 	prevField := -1
 	if !complete || len(paths) == 0 {
 		r.Unknown("F1", "Detect paths", w.Pos(d.Detect.Pos()), "Detect (with its loop-free stage methods unfolded) is not loop-free")
@@ -252,18 +253,33 @@ func checkReseed(w *World, r *Report, d *detInfo, k *kernels, curFFCField int, r
 			okP := false
 			if u, ok := pa.(*ssa.UnOp); ok {
 				if fa, ok := u.X.(*ssa.FieldAddr); ok && fa.Field == curFFCField {
-					// loaded before the store in block 0
-					okP = u.Block() == u.Parent().Blocks[0]
-					for i, x := range u.Block().Instrs {
-						if st, ok := x.(*ssa.Store); ok {
-							if fa2, ok := st.Addr.(*ssa.FieldAddr); ok && fa2.Field == curFFCField && isPtrTo(fa2.X.Type(), d.T) {
-								for j, y := range u.Block().Instrs {
-									if y == ssa.Instruction(u) && j > i {
-										okP = false
-									}
+					// loaded before the field is overwritten with the current frame's state: the load precedes every store of
+					// the field (same block: earlier instruction; otherwise its block dominates the store's - the selection
+					// logic is loop-free)
+					okP = true
+					nSt := 0
+					for _, sb := range u.Parent().Blocks {
+						for si, x := range sb.Instrs {
+							st, ok := x.(*ssa.Store)
+							if !ok {
+								continue
+							}
+							fa2, ok := st.Addr.(*ssa.FieldAddr)
+							if !ok || fa2.Field != curFFCField || !isPtrTo(fa2.X.Type(), d.T) {
+								continue
+							}
+							nSt++
+							if sb == u.Block() {
+								if instrIndex(u) > si {
+									okP = false
 								}
+							} else if !u.Block().Dominates(sb) {
+								okP = false
 							}
 						}
+					}
+					if nSt == 0 {
+						okP = false
 					}
 				}
 			}
@@ -591,7 +607,7 @@ func propC15(w *World, r *Report) {
 	nRet := 0
 	for _, b := range k.updateBg.Blocks {
 		ret, ok := b.Instrs[len(b.Instrs)-1].(*ssa.Return)
-		if !ok {
+		if !ok || e.inNilFrameBranch(b) {
 			continue
 		}
 		nRet++
